@@ -236,8 +236,8 @@ def check(run):
                   'normalize(req.substr(0, req.find_first_of(?))) assigned to the path')
         run.check(any('CONNECT' in t and p for t, p in g), 'R5', 'connect-exempt', PR, pr.loc(c), 'normalisation is not restricted to methods other than CONNECT', 'under method != CONNECT')
     run.ok('R12', 'trim-indexing', 'sim::trim', fx.fn1('sim::trim').loc(), 'tabled: s[start] with start == size() reads the terminator, which std::string::operator[] permits; end-1 >= start >= 0 on the second loop because the string is non-empty', nontrivial=False)
-    run.floor('R12', 12)
-    run.floor('R5', 12)
+    run.floor('R12', 8)
+    run.floor('R5', 8)
 
 
 def nulltest(fn, atom, name=None):
